@@ -43,6 +43,13 @@ func main() {
 		}
 		return
 	}
+	if len(os.Args) >= 4 && os.Args[1] == "--enumerations" {
+		if err := enumerations(os.Args[2], os.Args[3:]); err != nil {
+			fmt.Println("instr: enumerations:", err)
+			os.Exit(3)
+		}
+		return
+	}
 	if len(os.Args) < 4 {
 		fmt.Println("usage: instr <repo> <outdir> <seam>...")
 		os.Exit(2)
